@@ -57,6 +57,9 @@ def parseInj (s : String) : Option Inj :=
       | ['d'] => some .dial
       | ['b'] => some .backoff
       | [] => none
+      | 'c' :: ds =>
+        -- Reconnect from inside the Update callback of message j = after j+1 messages were processed
+        if act = 'k' ∧ !ds.isEmpty ∧ ds.all Char.isDigit then some (.msg ((String.ofList ds).toNat! + 1)) else none
       | ds => if ds.all Char.isDigit then some (.msg (String.ofList ds).toNat!) else none
     pos.map fun p => { remove := act = 'x', pos := p, readd := readd }
   | [] => none
